@@ -102,3 +102,15 @@ Example c19_heap_once_nonvacuous :
   matched_total (cfg_src false) PNewRoot (OpSweep :: nil) = Some 0 /\
   frees (m_run (cfg_src false) (OpDel :: OpSweep :: OpSweep :: nil) (m_produce (cfg_src false) PNew TString TInt TInt)) = 1.
 Proof. repeat split. Qed.
+
+(* finding F8 (open): alloc(T) + dealloc(x) releases the block once but the registry keeps the entry; the
+   next collection works on the released block *)
+Theorem c19_f8_alloc_dealloc_stale_entry :
+  forall T, kind_of T <> KType ->
+    let c := cfg_src false in
+    let o1 := fst (fst (m_op c OpDealloc (m_produce c PAlloc T T T))) in
+    snd (m_op c OpDealloc (m_produce c PAlloc T T T)) = cons FreeObj nil /\
+    o_reg o1 = RAuto /\
+    snd (fst (m_op c OpSweep o1)) = ORaise ValueError.
+Proof. exact HeaderProofs.alloc_dealloc_stale_entry. Qed.
+Print Assumptions c19_f8_alloc_dealloc_stale_entry.
